@@ -114,7 +114,7 @@ template <class G, class L> struct Subject {
         m.n = n0;
     }
 
-    void gone(const Edge &k, int how) {
+    void gone(Edge k, int how) {
         auto it = m.e.find(k);
         if (it == m.e.end()) return;
         ghosts[k] = {how, it->second.stamp};
